@@ -512,10 +512,48 @@ def compare_state_ints(a, b):
     return True
 
 
+def holds_harness_local_callable(ct):
+    """True when the definition's state refers to a function defined locally inside a
+    harness (vf.*) function: pickle cannot name such a function, whatever traits does."""
+    seen = set()
+
+    def walk(x, depth):
+        if depth > 6 or id(x) in seen:
+            return False
+        seen.add(id(x))
+        if isinstance(x, types.FunctionType):
+            return "<locals>" in x.__qualname__ and (x.__module__ or "").startswith("vf.")
+        if isinstance(x, types.MethodType):
+            return walk(x.__func__, depth + 1) or walk(x.__self__, depth + 1)
+        if isinstance(x, (tuple, list, set, frozenset)):
+            return any(walk(e, depth + 1) for e in x)
+        if isinstance(x, dict):
+            return any(walk(e, depth + 1) for e in x.values())
+        if isinstance(x, type) or isinstance(x, types.ModuleType):
+            return False
+        d = getattr(x, "__dict__", None)
+        if isinstance(d, dict):
+            return any(walk(e, depth + 1) for e in d.values())
+        return False
+    return walk(ct.__getstate__(), 0)
+
+
 def check_kind(ctx, name, kind, thunk, values, probes):
     """All round-trip modes for one definition kind."""
     t = thunk()
-    ct = t if isinstance(t, CTrait) else t.as_ctrait()
+    if isinstance(t, type) and issubclass(t, HasTraits):
+        # the shared catalogue may hand out a class whose trait `x` is the definition
+        ct = t().trait("x")
+    elif isinstance(t, CTrait):
+        ct = t
+    elif hasattr(t, "as_ctrait"):
+        ct = t.as_ctrait()
+    else:
+        ct = None
+    if ct is None:
+        ctx.count("def_specs_not_a_definition")
+        return
+    harness_local = holds_harness_local_callable(ct)
     host = PropHost()
     base_val = [outcome(ct.validate, host, "x", v) for (_i, _c, v) in values]
     # cost control: a conversion that builds a giant object (bytes(2**31) is 2 GB of zeros) is
@@ -530,6 +568,11 @@ def check_kind(ctx, name, kind, thunk, values, probes):
         try:
             rt = fn(ct)
         except Exception as e:  # noqa: BLE001
+            if harness_local and mclass == "pickle":
+                # the spec of the shared catalogue embeds a harness-local callable (a lambda
+                # validator, a closure getter): that pickle cannot name it says nothing about traits
+                ctx.count("def_harness_callable_not_picklable")
+                continue
             ctx.sig("def", kind, mclass, "raised", type(e).__name__)
             ctx.violation("def/%s/%s/%s" % (mclass, type(e).__name__, kind),
                           "%s of the CTrait of %s raised %s: %s"
